@@ -719,4 +719,17 @@ example :
       ⟨some (937 / 1000), none, none, none, none, none, some 2⟩).state.totalHits = 20 := by
   decide +kernel
 
+/-- hypotheses of `catch_tiny_inconsistent_pair_optimal` are satisfiable, and the pair is replaced -/
+example :
+    satAdd 1 1 ≠ (⟨100, 80, 50⟩ : CatchCfg).nTiny ∧
+    (@catchGenRaw ℚ (fieldOps 2) ⟨100, 80, 50⟩
+      ⟨some (93 / 100), none, none, none, some 1, some 1, some 3⟩).state = ⟨177, 100, 77, 37, 13, 3⟩ := by
+  decide +kernel
+
+/-- hypotheses of the inventory theorems are satisfiable -/
+example :
+    (⟨some (1 / 2 : ℚ), some 1, some 2, some 3, some 4, none, none⟩ : ManiaB ℚ).unknowns ≤ 1 ∧
+    2 ≤ osuProvided (⟨some (1 / 2 : ℚ), none, none, none, none, some 3, none, some 1, none⟩ : OsuB ℚ) :=
+  ⟨by decide, by decide⟩
+
 end Rosu.GenState.Opt
